@@ -345,6 +345,15 @@ class NullWalk(object):
             return self._nav_over(f, n["a"][1], C) and self._nav_over(f, n["a"][2], C)
         return False
 
+    def _rd(self, f):
+        from .flow import ReachingDefs
+        c = getattr(self, "_rdcache", None)
+        if c is None:
+            c = self._rdcache = {}
+        if f.key not in c:
+            c[f.key] = ReachingDefs(f, self.db)
+        return c[f.key]
+
     def _nonnull_at(self, f, header, body, C):
         from .flow import ReachingDefs, var_id
         import re
@@ -388,7 +397,7 @@ class NullWalk(object):
             if not ref:
                 continue
             if rd is None:
-                rd = ReachingDefs(f, self.db)
+                rd = self._rd(f)
             d1 = set(id(i[1]) for i in rd.at(cn, var_id(ref[0])))
             d2 = set(id(i[1]) for i in rd.at(at, var_id(ref[0])))
             if d1 == d2:
@@ -403,7 +412,7 @@ class NullWalk(object):
         (or mirrored) when E is not tested: for E = null chunk the way back starts at the null chunk, whose GetPrev() is the
         null chunk and not the tail of the list.  Returns True when a cursor's value at loop entry is such an E-derived chunk."""
         from .flow import ReachingDefs, var_id
-        rd = ReachingDefs(f, self.db)
+        rd = self._rd(f)
         hn = f.blocks[header]["n"]
         t = f.blocks[header].get("term")
         at = hn[0]["i"] if hn else (t.get("lc", t.get("c")) if t else None)
